@@ -35,7 +35,8 @@ META = {
     },
     "out_of_scope": [
         "preemption inside a statement other than the load/store split (bytecode level)", "the interior of transform() (it execs into "
-        "the function's globals) and of a call of the instrumented function: executed atomically",
+        "the function's globals); a call of the instrumented function has one scheduling point, between binding the code object "
+        "(call entry) and executing its body, which is otherwise atomic",
         "the memo tables _selector_fit_cache / InternedMC._cache / the gensym counter", "more than 3 threads / 2 rounds",
     ],
     "assumptions": ["statement-level atomicity as CPython's GIL gives between bytecodes is modelled at statement (+ load/store) granularity",
@@ -59,21 +60,22 @@ def machine():
     global _MACHINE
     if _MACHINE is None:
         import sys
+        import types
 
         import ptera.overlay as O
         from pv.engine.seqz import Machine
 
         T = sys.modules["ptera.transform"]
         m = Machine()
-        for fn, cls in [(O._tooler, None), (O._untooler, None),
-                        (T.SyncedStackedTransforms.__init__, T.SyncedStackedTransforms), (T.SyncedStackedTransforms.push, T.SyncedStackedTransforms),
-                        (T.SyncedStackedTransforms.pop, T.SyncedStackedTransforms), (T.SyncedStackedTransforms._apply, T.SyncedStackedTransforms),
-                        (T.StackedTransforms.__init__, T.StackedTransforms), (T.StackedTransforms.push, T.StackedTransforms),
-                        (T.StackedTransforms.pop, T.StackedTransforms), (T.StackedTransforms.get, T.StackedTransforms),
-                        (T.TransformSet.__init__, T.TransformSet), (T.TransformSet._set_base, T.TransformSet),
-                        (T.TransformSet._register, T.TransformSet), (T.TransformSet.transform_for, T.TransformSet),
-                        (O.BaseOverlay.__enter__, O.BaseOverlay), (O.BaseOverlay.__exit__, O.BaseOverlay)]:
-            m.add(fn, cls)
+        m.add(O._tooler, None)
+        m.add(O._untooler, None)
+        # every method currently defined by the three state classes and by BaseOverlay's enter/exit (whatever a refactoring adds)
+        for cls in (T.SyncedStackedTransforms, T.StackedTransforms, T.TransformSet):
+            for name, fn in vars(cls).items():
+                if isinstance(fn, types.FunctionType) and name not in ("_conform",):
+                    m.add(fn, cls)
+        m.add(O.BaseOverlay.__enter__, O.BaseOverlay)
+        m.add(O.BaseOverlay.__exit__, O.BaseOverlay)
         _MACHINE = m
     return _MACHINE
 
@@ -130,6 +132,7 @@ def postcondition(f, orig, threads, errors):
 def run_virtual(plan, nthreads, rounds):
     """plan: list of (global step position, target thread).  Returns (verdict, trace)."""
     import contextvars
+    import types
 
     import ptera.overlay as O
     from pv.engine.seqz import VThread, run_schedule
@@ -146,7 +149,12 @@ def run_virtual(plan, nthreads, rounds):
             yield (0, "op")
             yield from m.call(r["ol"].__enter__)
             yield (0, "op")
-            r["rv"].append(f(r["x"]))
+            # call entry: CPython binds the code object when the call starts; the first statement of the (possibly
+            # instrumented) body -- `with proceed(<global token>)` -- runs later: another thread may swap variants in between
+            entered = types.FunctionType(f.__code__, f.__globals__, f.__name__, f.__defaults__, f.__closure__)
+            entered.__kwdefaults__ = f.__kwdefaults__
+            yield (0, "callentry")
+            r["rv"].append(entered(r["x"]))
             yield (0, "op")
             yield from m.call(r["ol"].__exit__, None, None, None)
             yield (0, "op")
@@ -199,7 +207,7 @@ def run_real(trace, nthreads, rounds, timeout=8.0):
         lines = {ln for ln, kind in pts if kind == "stmt"}
         mids = {ln for ln, kind in pts if kind == "mid"}
         gates[code] = ({first[ln] for ln in lines if ln in first}, mids)
-    sched = [tid for tid, pt in trace if pt == "end" or (isinstance(pt, tuple) and pt[1] in ("stmt", "mid", "op"))]
+    sched = [tid for tid, pt in trace if pt == "end" or (isinstance(pt, tuple) and pt[1] in ("stmt", "mid", "op", "callentry"))]
     cond = threading.Condition()
     state = {"cursor": 0, "timeout": False}
     tids = {}
@@ -268,6 +276,16 @@ def run_real(trace, nthreads, rounds, timeout=8.0):
     for code in gates:
         mon.set_local_events(tool, code, mon.events.INSTRUCTION)
 
+    # call entry of the probed function: whichever variant's code object starts executing
+    fname, ffile = f.__code__.co_name, f.__code__.co_filename
+
+    def on_start(code, offset):
+        if code.co_name == fname and code.co_filename == ffile:
+            gate((0, "callentry"))
+
+    mon.register_callback(tool, mon.events.PY_START, on_start)
+    mon.set_events(tool, mon.events.PY_START)
+
     errors = [None] * nthreads
 
     def body(i):
@@ -302,6 +320,8 @@ def run_real(trace, nthreads, rounds, timeout=8.0):
         t.join(timeout * 3)
     for code in gates:
         mon.set_local_events(tool, code, 0)
+    mon.set_events(tool, 0)
+    mon.register_callback(tool, mon.events.PY_START, None)
     mon.register_callback(tool, mon.events.INSTRUCTION, None)
     mon.free_tool_id(tool)
     run_real.last_log = log
